@@ -182,6 +182,24 @@ def run_c15(sc, q, rnd):
                 key_fn=lambda c: (c["dir"], c["fault"], c["mailbox_size"], c["mode"], c["nobj"], c["obs_result"], len(c["mailbox_log"]),
                                   len(c["plan"]), c["complete"]),
                 sample_fn=lambda c: len(c["mailbox_log"]) > 6)
+    # the register-level handshake around every request (MailboxPoll)
+    mcfg = lib.cfg_text(spec="MpSpec", constants=dict(MaxStale=3, MaxPolls=3, PromptReload=True),
+                        invariants=["WrittenOnce", "ResponseIsResponse", "DrainBounded"])
+    sc.mc("mailboxpoll", "MailboxPoll", mcfg, workers=2)
+    hs = os.path.join(sc.wd, "handshake.proj.ndjson")
+    with open(raw) as fi, open(hs, "w") as fo:
+        for line in fi:
+            c = json.loads(line)
+            if "wire" not in c:
+                continue
+            ms = c["case"]["mailbox_size"]
+            fo.write(json.dumps(dict(case=dict(id=c["case"]["id"]), result=c.get("result", "none"), wire=c["wire"],
+                                     stale=1 if c["case"].get("stale_out_mailbox") else 0,
+                                     requests=sum(1 for m in c.get("mailbox_log", []) if m["dir"] == "in"),
+                                     out_status=0x080D, in_status=0x0805, mbx_in=0x1000, mbx_out=0x1400, mbx=ms)) + "\n")
+    sc.validate("handshake", hs, "MailboxPollTrace", dict(MaxStale=1, MaxPolls=100000, PromptReload=False),
+                constraints=("Track", "Judge"), key_fn=lambda c: (len(c["wire"]), c["stale"], c["requests"], c["result"]),
+                sample_fn=lambda c: c["stale"] == 1)
     return sc.finish(
         "one case = one SDO call on the simulated CoE server; distinct by (direction, fault, mailbox size, server mode, object "
         "size, result, messages exchanged, transfers, complete access)",
